@@ -11,6 +11,44 @@ TB = ("Trusted: Lean 4.33 kernel; axioms of every property theorem printed per r
       "lxml/libxml2 and CPython are modelled, not verified. ")
 
 CLAIMED = {
+    "C03": dict(
+        text="Proof (width 0) / proof-partial (width >= 1): PrettySerializer and TextWrappingSerializer are modelled in Lean "
+             "(Model/Pretty.lean, Model/Wrapping.lean: writer with offset tracking and newline stripping, line fitting, "
+             "_serialize_text/_over_lines/_consolidate_text_lines, _required_space*, bounded _fetch_following, the two "
+             "whitespace-legitimacy predicates, xml:space handling). Proved for every whitespace-reduced tree, every whitespace "
+             "indentation, alignment on/off and every accepted prefix map: reading the indentation-only output back (C02 "
+             "reader) and reducing whitespace (C07 reduction) gives the original tree (c03_pretty_transparent, composed with "
+             "prefix collection in c03_serialize_pretty_transparent); inserted layout is whitespace only; non-whitespace "
+             "characters are unaltered; xml:space=preserve subtrees are written by the plain serializer without layout. "
+             "For width >= 1 the wrapping model is byte-identical to the implementation on every explored case and the Lean "
+             "side evaluates build+reduce of the model output per case (theorems for the wrapping model in Props/C03Wrap.lean "
+             "when present). Tie to code: exact output string of the real serializers == compiled model for reduced "
+             "mixed-content trees x 4 indentations x 15 widths x alignment x namespaces, from the root and from subtrees; "
+             "property oracle: Document(output, reduce_whitespace=True) equals the original.",
+        note=TB + "Partial: the all-input theorem covers width 0; for width >= 1 see DESIGN.md (what Props/C03Wrap.lean "
+             "proves). Fixed finding: wrapping looked beyond the serialized subtree (8870f79).",
+        technique="Lean 4 theorems (laid-out tree read back by the C02 reader and reduced by the C07 reduction) + byte-exact differential correspondence of both serializer models",
+        design="3/C03",
+    ),
+    "C04": dict(
+        text="Proof-partial: _WrapperCache.__gc_callback__ is modelled in Lean over an abstract cache (wrappers, head and "
+             "appended text nodes, references held by the program vs structural references; thresholds read from the source "
+             "on every run). Proved for every cache state: the callback keeps a wrapper iff the program references the node, "
+             "its document or any text node at its data/tail position (c04_keeps_iff_referenced); referenced objects stay "
+             "cached untouched and in order; an evicted wrapper is unreferenced and leaves its element with exactly the text "
+             "its text nodes showed (content stable, coalescing only of unreferenced nodes); nothing is left when nothing is "
+             "referenced; a held lock makes a collection a no-op; idempotence. Tie to code: before every forced collection "
+             "the real cache with the harness's holds is handed to the compiled model and survivors + folded texts compared; "
+             "property oracle on edit histories with random holds (text node without its element, appended node without "
+             "predecessors, root without document, document without root) under forced / in-call (threshold 1) / no "
+             "collections: content == plain-tree mirror up to coalescing of unreferenced text, held objects are what "
+             "navigation returns, cache empty after release, no exception escapes the callback.",
+        note=TB + "Partial: when CPython collects and which temporaries library frames hold is runtime behaviour - explored "
+             "(forced, threshold 1), not modelled. Fixed findings: head-text-node-only (3993e00), "
+             "detach-retain-reordered-by-collection (cf2d205).",
+        technique="Lean 4 theorems over a reference-count model of the cache callback + differential correspondence on real cache snapshots + timing exploration",
+        design="3/C04",
+    ),
     "C12": dict(
         text="Proof-partial: Document.__serialize is modelled in Lean (declaration with the upper-cased label, prologue, root, "
              "epilogue, a newline separator exactly for formatting serializers) with the reading side on the same pieces; "
